@@ -218,7 +218,7 @@ func (l *Lexer) string(quoteChar byte) (Token, error) {
 		l.advance()
 	}
 	if l.atEnd() {
-		return l.errorToken(), l.error(l.tokenStart+1, "unexpected EOF while reading string")
+		return l.errorToken(), l.error(l.tokenStart, "unexpected EOF while reading string")
 	}
 	l.advance()
 	l.tokenStart++ // skip over the opening quote
